@@ -279,6 +279,18 @@ impl Env {
         std::fs::set_permissions(&p, std::fs::Permissions::from_mode(mode)).unwrap();
     }
 
+    /// Install the command at `rel` as a symbolic link to a real script stored at `real_rel`
+    /// (a script shared between targets, linked into each command directory).
+    pub fn install_command_symlink(&self, rel: &str, real_rel: &str, executable: bool) {
+        self.install_command(real_rel, executable);
+        let p = self.path(rel);
+        if let Some(d) = p.parent() {
+            std::fs::create_dir_all(d).unwrap();
+        }
+        let _ = std::fs::remove_file(&p);
+        std::os::unix::fs::symlink(self.path(real_rel), &p).unwrap();
+    }
+
     /// plan: (command file relative to repo, target path) -> behaviour
     pub fn set_plan(&self, plan: &BTreeMap<(String, String), Behavior>) {
         let mut entries = Map::new();
